@@ -336,6 +336,17 @@ def trace_class(repo, cname):
         inner = np.asarray(phi._value, dtype=object)[tuple(slice(1, -1) for _ in range(d))]
         out["ghosts"] = vec(pf.boundary.cellValuesWithBoundaries(inner, BC))
         out["bcshapes"] = {f"{a}_{int(hi)}": list(shp) for (a, hi), shp in bcshapes.items()}
+        # the same boundary object with every non-radial axis declared periodic through ONE side flag (the tutorial style)
+        per_axes = [a for a in range(d) if AXKIND[cname][a] != "rad"]
+        out["per_axes"] = per_axes
+        if per_axes:
+            for a in per_axes:
+                getattr(BC, SIDES[a][0]).periodic = True
+            Mp, Rp = pf.boundaryConditionsTerm(BC)
+            out["bcpM"] = matrix(Mp); out["bcpR"] = vec(Rp)
+            out["ghostsp"] = vec(pf.boundary.cellValuesWithBoundaries(inner, BC))
+            for a in per_axes:
+                getattr(BC, SIDES[a][0]).periodic = False
         # upwind advection: the builder chooses the donor cell by the SIGN of the velocity; each sign pattern is one path.  Two
         # patterns are traced (alternating signs, and the opposite), plus one with a separate direction field u_upwind.
         out["upwind"] = []
@@ -547,6 +558,30 @@ def emit(tr):
         lemma(f"bcR_{r}", tr["bcR"][r].txt, f"bc_rhs F tm tbc {cell_of(idx, d)}")
         if not (nghost >= 2):
             lemma(f"ghosts_{r}", tr["ghosts"][r].txt, f"with_boundaries F tm tbc tp {cell_of(idx, d)}")
+    if tr.get("per_axes"):
+        w("(*CHUNK*)")
+        perf = "fun a => match a with " + " | ".join(f"{AXN[a]} => true" for a in tr["per_axes"]) + " | _ => false end" if len(tr["per_axes"]) < 3 else "fun _ => true"
+        w(f"Definition tbcp : BCs F := mkBCs F (bca F tbc) (bcb F tbc) (bcc F tbc) ({perf}).")
+        byrowp = rows_of(tr["bcpM"])
+        for r in range(ncell):
+            idx = [int(q) for q in np.unravel_index(r, pshape)]
+            ghosts_ax = [b for b in range(d) if idx[b] == 0 or idx[b] == Ns[b] + 1]
+            if len(ghosts_ax) >= 2 and d == 2:
+                continue
+            cols = set(byrowp.get(r, {}))
+            if len(ghosts_ax) == 1:
+                b = ghosts_ax[0]
+                for n_ in (0, 1, Ns[b], Ns[b] + 1):
+                    j = list(idx); j[b] = n_
+                    cols.add(int(np.ravel_multi_index(j, pshape)))
+            elif len(ghosts_ax) >= 2:
+                cols.add(r)
+            for c in sorted(cols):
+                v = byrowp.get(r, {}).get(c)
+                lemma(f"bcpM_{r}_{c}", v.txt if v is not None else "k0 F", f"coef_at F (bc_row F tm tbcp {cell_of(idx, d)}) {c}")
+            lemma(f"bcpR_{r}", tr["bcpR"][r].txt, f"bc_rhs F tm tbcp {cell_of(idx, d)}")
+            if len(ghosts_ax) < 2:
+                lemma(f"ghostsp_{r}", tr["ghostsp"][r].txt, f"with_boundaries F tm tbcp tp {cell_of(idx, d)}")
     w("(*CHUNK*)")
     face_vals("gradient", tr["gradient"], "gradient F tm tp")
     face_vals("linmean", tr["linmean"], "linmean F tm tp")
